@@ -140,6 +140,15 @@ package check
 //@   loop range:fourFileChan.findLocVec exits-early-only-if [every-location-found-is-examined] false
 //@ end
 
+// which declaration a reference search starts from: the walk through `a.b.c` goes on only through KNOWN members - for
+// an unknown one there is no declaration of the thing asked about, and the variable in front of it is not offered in
+// its place (rename of q.y rewrote `local q` until the fix)
+//@ func (*AllProject).FindReferenceVarDefine
+//@   props C06 C11 C04
+//@   loop for:i<len(varStruct.StrVec) step [walk-continues-only-through-known-members] prev(oldVar) != nil && has(prev(oldVar).SubMaps, strTemp) && oldVar == prev(oldVar).SubMaps[strTemp]
+//@   loop for:i<len(varStruct.StrVec) invariant oldVar != nil
+//@ end
+
 // the single-file path (locals, highlight): the declaration is left out only when the file searched is the declaring one
 // (highlight searches the file of the cursor, which may use a global at the very position of its declaration elsewhere)
 //@ func (*AllProject).FindReferences
@@ -324,6 +333,8 @@ package check
 //@   props C13
 //@   at call strings.TrimLeft#* before assert[only-blanks-are-stripped-as-a-set] streq(arg1, " ")
 //@   at call strings.TrimPrefix#0 before assert[marker-is-removed-as-a-prefix-once] streq(arg1, "-*")
+// the marker is looked for at the very start of the line's comment text - a dash behind blanks is text ("-- -5", fix 5e50b6c)
+//@   at call strings.TrimPrefix#0 before assert[marker-is-looked-for-at-the-start-of-the-raw-line] arg0 == splitStrArr[index]
 //@   at call strings.TrimPrefix#1 before assert[marker-is-removed-as-a-prefix-once] streq(arg1, "-")
 //@   ensures[at-most-two-marker-prefixes-are-removed-per-line] hits("strings.TrimPrefix#0") == hits("strings.TrimLeft#0") && hits("strings.TrimPrefix#1") == hits("strings.TrimLeft#0")
 //@   loop range:splitStrArr exits-early-only-if [every-line-of-the-comment-is-kept] false
